@@ -383,9 +383,10 @@ def gen(repo):
         f = find_func(cls, "read")
         body = [s for s in f.body if not (isinstance(s, ast.Expr) and isinstance(s.value, ast.Constant))]
         _require(_norm(body[0]) == "points = self.read_points(-1)", "read() starts with read_points(-1)")
-        _require(_norm(body[2]) == "shall_read_evlr = self.header.version.minor >= 4 and self.header.number_of_evlrs > 0 and (self.evlrs is None)",
+        _require(len(body) == 4, f"read() has {len(body)} statements, 4 expected (points, shall_read_evlr, if, return)")
+        _require(_norm(body[1]) == "shall_read_evlr = self.header.version.minor >= 4 and self.header.number_of_evlrs > 0 and (self.evlrs is None)",
                  "shall_read_evlr")
-        i = body[3]
+        i = body[2]
         _require(isinstance(i, ast.If) and _norm(i.test) == "shall_read_evlr", "if shall_read_evlr")
         inner = [s for s in i.body if isinstance(s, ast.If)]
         _require(len(inner) == 1 and _norm(inner[0].test) == ASK.format("self.point_source.source") and
@@ -393,20 +394,46 @@ def gen(repo):
         comp = [s for s in inner[0].orelse if isinstance(s, ast.If)]
         _require(len(comp) == 1 and _norm(comp[0].test) == "self.header.are_points_compressed", "compressed switch in the sequential branch")
         seq = [s for s in comp[0].orelse if not (isinstance(s, ast.Expr) and isinstance(s.value, ast.Constant))]
-        _require([_norm(s) for s in seq] == ["self.header.evlrs = VLRList.read_from(self.point_source.source, self.header.number_of_evlrs, extended=True)"],
-                 "sequential EVLR read right after the last point")
+        # the bytes between the last point and the first EVLR are read and dropped, then the EVLRs are read where the source stands:
+        #   gap = <expression of the header>; while gap > 0: skipped = source.read(gap); if not skipped: break; gap -= len(skipped)
+        _require(len(seq) == 3, f"sequential EVLR branch has {len(seq)} statements, 3 expected (gap, skipping loop, read_from)")
+        g, w, rd = seq
+        _require(isinstance(g, ast.Assign) and [_norm(t) for t in g.targets] == ["gap"], "gap = ..")
+        names = {"self.header.start_of_first_evlr": "evstart", "self.header.offset_to_point_data": "offset",
+                 "self.header.point_count": "count", "self.header.point_format.size": "psize"}
+
+        def zexpr(n):
+            if isinstance(n, ast.BinOp) and isinstance(n.op, (ast.Add, ast.Sub, ast.Mult)):
+                return f"({zexpr(n.left)} {({ast.Add: '+', ast.Sub: '-', ast.Mult: '*'})[type(n.op)]} {zexpr(n.right)})"
+            if isinstance(n, ast.Constant) and isinstance(n.value, int) and not isinstance(n.value, bool):
+                return py2v.z(n.value)
+            if _norm(n) in names:
+                return names[_norm(n)]
+            raise Untranslatable(f"gap before the EVLRs: `{_norm(n)}` is not a field of the header the model knows")
+        gap = zexpr(g.value)
+        _require(isinstance(w, ast.While) and _norm(w.test) == "gap > 0" and not w.orelse and len(w.body) == 3, "while gap > 0: three statements")
+        a, b, c = w.body
+        _require(_norm(a) == "skipped = self.point_source.source.read(gap)", "skipped = source.read(gap)")
+        _require(isinstance(b, ast.If) and _norm(b.test) == "not skipped" and len(b.body) == 1 and isinstance(b.body[0], ast.Break) and not b.orelse,
+                 "if not skipped: break")
+        _require(_norm(c) == "gap -= len(skipped)", "gap -= len(skipped)")
+        _require(_norm(rd) == "self.header.evlrs = VLRList.read_from(self.point_source.source, self.header.number_of_evlrs, extended=True)",
+                 "sequential EVLR read once the gap is skipped")
         _require(len(i.orelse) == 1 and isinstance(i.orelse[0], ast.If)
                  and _norm(i.orelse[0].test) == "self.header.version.minor >= 4 and self.evlrs is None"
                  and [_norm(s) for s in i.orelse[0].body] == ["self.evlrs = VLRList()"] and not i.orelse[0].orelse,
                  "nothing to load on a 1.4 file: an empty list")
-        _require(_norm(body[-1]) == "return las_data", "read() returns las_data")
+        _require(_norm(body[-1]) == "return LasData(header=deepcopy(self.header), points=points)",
+                 "read() returns the records with (a copy of) the reader's header")
         re = find_func(cls, "read_evlrs")
         _require([_norm(s) for s in re.body] == ["self.header.read_evlrs(self._source)"], "LasReader.read_evlrs delegates to the header")
         cps = find_func(cls, "_create_point_source")
         s = _norm(cps)
         _require("if self.header.point_count > 0:" in s and "return UncompressedPointReader(source, self.header)" in s
                  and "return EmptyPointReader(source)" in s, "_create_point_source")
-        return "Definition gen_reader_read_shape : bool := true.\n"
+        return ("(* LasReader.read, source that cannot seek: the bytes to skip between the last point and the first EVLR *)\n"
+                f"Definition gen_evlr_gap (evstart offset count psize : Z) : Z := {gap}.\n\n"
+                "Definition gen_reader_read_shape : bool := true.\n")
     o.add("reader_read", reader_read)
 
     def point_readers():
